@@ -398,7 +398,7 @@ PROBES = {
             'register_write', 'fault_F3_fired', 'fault_F4_fired', 'fault_F8_fired', 'c04_selfwrite_judged'],
     'C10': ['c10_hop_judged', 'c10_hop_inexact_or_out_of_range', 'c10_hop_all_codes_of_source_format', 'c10_hop_out_of_domain', 'c10_route_resize', 'c10_route_resize_dtype',
             'c10_route_like_kw', 'c10_route_like_method', 'c10_route_ctor_from', 'c10_route_set_from_call',
-            'c10_route_set_from_set_val', 'c10_route_equal', 'c10_route_setitem_from',
+            'c10_route_set_from_set_val', 'c10_route_equal', 'c10_route_setitem_from', 'self_conversion',
             'fault_F3_fired', 'fault_F5_template_flip'],
 }
 
